@@ -36,14 +36,12 @@ var (
 var ErrBranchReportResponseFault = errors.New("branch report response fault")
 
 func GetRMRemotingInstance() *RMRemoting {
-	if rmRemoting == nil {
-		onceGettyRemoting.Do(func() {
-			rmRemoting = &RMRemoting{}
-			// every resource announced so far is announced again on a session opened later (reconnect):
-			// the coordinator routes phase two by the resources a session has registered
-			getty.AddSessionOpenListener("rm-resources", rmRemoting.announceResources)
-		})
-	}
+	onceGettyRemoting.Do(func() {
+		rmRemoting = &RMRemoting{}
+		// every resource announced so far is announced again on a session opened later (reconnect):
+		// the coordinator routes phase two by the resources a session has registered
+		getty.AddSessionOpenListener("rm-resources", rmRemoting.announceResources)
+	})
 	return rmRemoting
 }
 
